@@ -203,8 +203,13 @@ func (r *Run) WriteEvidence() error {
 	if err != nil {
 		return err
 	}
-	os.MkdirAll(filepath.Join(VerifDir, "evidence"), 0o755)
-	return os.WriteFile(filepath.Join(VerifDir, "evidence", r.ID+".json"), append(b, '\n'), 0o644)
+	dir := filepath.Join(VerifDir, "evidence")
+	if RepoDir != "/repo" {
+		// a run against a scratch copy (seeded-change confirmation): never overwrite the evidence of /repo
+		dir = filepath.Join(VerifDir, "evidence-scratch")
+	}
+	os.MkdirAll(dir, 0o755)
+	return os.WriteFile(filepath.Join(dir, r.ID+".json"), append(b, '\n'), 0o644)
 }
 
 // ---------------------------------------------------------------- findings
